@@ -206,12 +206,13 @@ func (g *FG) branchCond(b *cfg.Block) ast.Expr {
 }
 
 // pathQuery describes a search for a path.
-//   from:    start point
-//   stop:    nodes that block a path (the path may not pass them)
-//   goal:    called at every visited point boundary; a path "succeeds" when goal
-//            returns true for a node (before stop is applied to that node) or
-//            when goalExit matches the exit kind of a terminal block
-//   edgeOK:  optional filter on branch edges (cond, polarity)
+//
+//	from:    start point
+//	stop:    nodes that block a path (the path may not pass them)
+//	goal:    called at every visited point boundary; a path "succeeds" when goal
+//	         returns true for a node (before stop is applied to that node) or
+//	         when goalExit matches the exit kind of a terminal block
+//	edgeOK:  optional filter on branch edges (cond, polarity)
 type pathQuery struct {
 	from     point
 	stop     func(n ast.Node) bool
